@@ -51,7 +51,8 @@ func NewGitNode(
 	u.RawQuery = ""
 	u.Path = basePath
 
-	if u.Scheme == "http" && !insecure {
+	// Neither http nor the git protocol encrypts or authenticates the connection
+	if (u.Scheme == "http" || u.Scheme == "git") && !insecure {
 		return nil, &errors.TaskfileNotSecureError{URI: entrypoint}
 	}
 	return &GitNode{
